@@ -14,3 +14,13 @@ import AGV.Props.C17
 #print axioms AGV.Props.C17.c17_witness_dynamic_registration
 #print axioms AGV.Props.C17.c17_strings_block
 #print axioms AGV.Props.C17.c17_tokens_partial
+#print axioms AGV.Props.C17.c17_tokens_false
+#print axioms AGV.Props.C17.c17_tokens_deprecation
+#print axioms AGV.Props.C17.c17_tokens_directives
+#print axioms AGV.Props.C17.c17_tokens_default_value
+#print axioms AGV.Props.C17.c17_tokens_directive_definition
+#print axioms AGV.Props.C17.c17_tokens_plain
+#print axioms AGV.Props.C17.c17_tokens_plain_doc
+#print axioms AGV.Props.C17.c17_tokens_federation_order
+#print axioms AGV.Props.C17.c17_tokens_wf
+#print axioms AGV.Props.C17.c17_chars
